@@ -185,10 +185,10 @@ def shard_systematic(kind, lo, hi, tier):
     return res
 
 
-CASE_PROGRAMS = ['%s a0, 0x12345678\nj end\nnop\nend: nop\n', 'start: nop\n%s a1, 2048\nbeqz a1, end\naddi a1, a1, 1\nend: ret\n',
-                 'f: ret\n%s f\nj end\nnop\nend: nop\n', '%s end\nnop\nj end\nnop\nend: nop\n', '%s t0, end\nnop\nend: nop\n',
-                 '%s a0, a1\n%s a2, end\nend: nop\n']
-CASE_NAMES = {0: ['li'], 1: ['li'], 2: ['call', 'tail'], 3: ['call', 'tail', 'j', 'jal'], 4: ['la', 'jal'], 5: ['mv', 'not', 'neg', 'seqz']}
+CASE_PROGRAMS = ['%s a0, 0x12345678\nj end\nnop\nend:\nnop\n', 'start:\nnop\n%s a1, 2048\nbeqz a1, end\naddi a1, a1, 1\nend:\nret\n',
+                 'f:\nret\n%s f\nj end\nnop\nend:\nnop\n', '%s end\nnop\nj end\nnop\nend:\nnop\n',
+                 '%s a0, a1\n%s a2, 0x12345678\nj end\nnop\nend:\nnop\n']
+CASE_NAMES = {0: ['li'], 1: ['li'], 2: ['call', 'tail'], 3: ['call', 'tail', 'j', 'jal'], 4: ['mv', 'not', 'neg', 'seqz']}
 
 
 def _case_pair(a, lower, spelled, comp):
@@ -210,7 +210,7 @@ def case_job(tier):
     for k, tpl in enumerate(CASE_PROGRAMS):
         for name in CASE_NAMES[k]:
             n = tpl.count('%s')
-            second = ('la',) if n == 2 else ()
+            second = ('li',) if n == 2 else ()
             lower = tpl % ((name,) + second)
             if _case_pair(a, lower, lower, False)[0][0] != 'ok':
                 res.count('case_program_out_of_scope')
@@ -224,6 +224,8 @@ def case_job(tier):
                     if x != y:
                         res.fail('case:%s' % name, '%r (compress=%s) gives %r, the lower-case spelling %r' % (spelled, comp, y[:2], x[:2]),
                                  {'kind': 'case', 'lower': lower, 'spelled': spelled, 'compress': comp})
+    if res.evaluations < 40:
+        raise env.HarnessError('case_job: its own lower-case programs are refused')
     res.sample({'case_programs': len(CASE_PROGRAMS), 'example': CASE_PROGRAMS[0] % 'LI'})
     return res
 
@@ -233,7 +235,7 @@ def run(tier):
     chk.rule = ('(1) systematic: all 27 pseudo-instructions x every register for rd (x rs sample; all pairs in '
                 'thorough) and li over low-13-bits-complete x %d upper parts, both spellings, call/tail at each of the call distance classes '
                 '(0 .. 1 MiB + 8 KiB) +-8 bytes forwards and backwards (must be accepted and land), both compression modes; '
-                '(1b) li/call/tail/j/jal/la/mv/not/neg/seqz in upper, capitalised and swapped case in 6 small programs with a label behind them == the lower-case spelling (bytes, labels); (2) Hypothesis IR programs (profile pseudo: pseudo-instructions among compressible code, targets at '
+                '(1b) li/call/tail/j/jal/mv/not/neg/seqz in upper, capitalised and swapped case in 5 small programs with a label behind them == the lower-case spelling (bytes, labels); (2) Hypothesis IR programs (profile pseudo: pseudo-instructions among compressible code, targets at '
                 'all distance classes). Each expansion is executed by rvref.step from 14 register files and compared '
                 'with the documented function (registers, next pc, link, scratch, events). non-trivial = pseudo with '
                 'rd != x0 or a control transfer (systematic: counted per instance, all distinct by construction; '
